@@ -1070,6 +1070,18 @@ func (c *client) establishRegion(reg hrpc.RegionInfo, addr string) {
 				if !replaced {
 					// a region that is the same or younger is already in cache
 					reg.MarkAvailable()
+					if originalReg.Context().Err() == nil {
+						// ... and it's not one that replaced the original
+						// region: hbase:meta lists an older region than
+						// the ones we hold (a table restored from a
+						// snapshot). The original region is still in the
+						// cache and nobody else will reestablish it:
+						// keep trying, backing off, rather than hand it
+						// back to requests that can only come here again
+						// right away.
+						reg, addr = originalReg, ""
+						continue
+					}
 					originalReg.MarkAvailable()
 					return
 				}
